@@ -141,7 +141,7 @@ spec fn first_line_hazard(ds: DrawState, t: GTerm, n: int) -> bool {
 spec fn layout_pre(ds: DrawState, t: GTerm, n: int) -> bool {
     &&& (n == 0 ==> t.col == 0 || t.col == t.w)                       // cursor at a line start
     &&& blank_from(t, frame_start(t, n) + n * t.w)                    // nothing below the old frame
-    &&& !ds.move_cursor
+    &&& (!ds.move_cursor || ds.lines@.len() == 0)                   // cursor-moving mode never applies to an empty frame: it is wiped like any other
 }
 proof fn lemma_pos_mono(lines: Seq<LineType>, w: nat, base: int, a: int, b: int)
     requires 0 <= a <= b, w >= 1
@@ -320,7 +320,8 @@ UNIT = Unit(
                 "final(term)@.col == old(term)@.w && final(term)@.lin() == frame_start(old(term)@, old(bar_count).0 as int) + hts(old(self).lines@, old(term)@.w, old(self).lines@.len() as int) * old(term)@.w"),
                ("C01-cleared-frame-leaves-nothing",
                 "res.is_ok() && old(self).alignment is Top && layout_pre(*old(self), old(term)@, old(bar_count).0 as int) && old(self).lines@.len() == 0 ==> "
-                "blank_from(final(term)@, frame_start(old(term)@, old(bar_count).0 as int)) && final(term)@.lin() == frame_start(old(term)@, old(bar_count).0 as int) && final(bar_count).0 == 0"),
+                "blank_from(final(term)@, frame_start(old(term)@, old(bar_count).0 as int)) && final(term)@.lin() == frame_start(old(term)@, old(bar_count).0 as int) && final(bar_count).0 == 0",
+                ["C01", "C04"]),
                ("C19-rows-accounted",
                 "res.is_ok() && old(self).alignment is Top ==> final(bar_count).0 as nat == rh(old(self).lines@, old(term)@.w, stop(old(self).lines@, old(term)@.w, old(term)@.h, 0))"),
                ("rows-bounded", "res.is_ok() ==> final(bar_count).0 <= hts(old(self).lines@, old(term)@.w, old(self).lines@.len() as int) + old(bar_count).0"),
